@@ -32,7 +32,7 @@ CHECKS = {
    note="Trusted: the oracle's own distance function (hypot of per-axis gaps) with 1e-12 relative tolerance for ties; runs in which a C11-side failure (panic in Insert/Delete, wrong Delete result) occurs are abandoned and counted, since C11's check reports them.",
    technique="deterministic simulation: seeded operation histories vs brute-force reference, tape-minimised replay"),
  "C19": dict(engine="sim-hist-route", cat="exploration", ref="DESIGN.md §7",
-   text="Seeded search over AddLink/ShortestRoute histories (<=40 links on a small lattice with merged, 1-ulp-perturbed and distinct end points, random link geometries and speeds, both MinimizeOptions, queries interleaved with AddLinks; one run in ten with up to 260 links over corridor- or grid-shaped lattices of up to ~270 nodes and per-axis coordinate scales from 1e-3 to 1e6; one query in five runs as a PAIR of ShortestRoute calls interleaved by the token scheduler at every neighbour-list hand-over and, on small networks, between any two statements (yield points inserted at build time by tools/hookfill), with every map- or slice-typed struct field that both calls touch, one of them writing, reported as a data race; hubs of 255-514 links, links of up to 1200 vertices, rare runs of 66000 queries) on the real route package, its rtree and gonum's A*; the simulator owns the order in which map-backed neighbour lists reach A*. Every answer is checked against a Dijkstra model: valid chain from the nearest start node to the nearest end node, reported totals equal the sums over the returned links, cost minimal within 1e-9 relative, empty route when unreachable.",
+   text="Seeded search over AddLink/ShortestRoute histories (<=40 links on a small lattice with merged, 1-ulp-perturbed and distinct end points, now and then a link whose two new end points lie 1 ulp apart, random link geometries and speeds, both MinimizeOptions, queries interleaved with AddLinks; one run in ten with up to 260 links over corridor- or grid-shaped lattices of up to ~270 nodes and per-axis coordinate scales from 1e-3 to 1e6; one query in five runs as a PAIR of ShortestRoute calls interleaved by the token scheduler at every neighbour-list hand-over and, on small networks, between any two statements (yield points inserted at build time by tools/hookfill), with every map- or slice-typed struct field that both calls touch, one of them writing, reported as a data race; hubs of 255-514 links, links of up to 1200 vertices, rare runs of 66000 queries) on the real route package, its rtree and gonum's A*; the simulator owns the order in which map-backed neighbour lists reach A*. Every answer is checked against a Dijkstra model: valid chain from the nearest start node to the nearest end node, reported totals equal the sums over the returned links, cost minimal within 1e-9 relative, empty route when unreachable.",
    note="Trusted: the oracle's Dijkstra and polyline lengths. Query points keep a margin so that the nearest node is unique; equal-cost alternatives are accepted. No fault kinds exist for this component; the neighbour order is the only nondeterminism and is drawn from the tape through the add-only verif hook in Network.From/Nodes.",
    technique="deterministic simulation: seeded AddLink/query histories with simulator-owned map order and token-scheduled overlapping queries vs Dijkstra reference, shared-access check, tape-minimised replay"),
  "C10": dict(engine="sim-hist-proj", cat="exploration", ref="DESIGN.md §5",
@@ -44,7 +44,7 @@ CHECKS = {
    note="Trusted: the independent serializer/layout, the allocation meter (runtime/metrics, single goroutine), the NaN-aware equality. Workers run under ulimit -v 4 GiB; an unsurvivable allocation kills the worker and is attributed to the journalled run (class process-crash, seed-only replay). Success on truncated/error-interrupted input is only counted: the statement demands a geometry or an error, not rejection. Failing allocations/syscalls inside the Go runtime cannot be injected.",
    technique="deterministic simulation of a faulty store/stream: enumerated storage and reader faults per seeded item, allocation meter, tape-minimised replay"),
  "C18": dict(engine="sim-osm", cat="exploration", ref="DESIGN.md §3",
-   text="The real ExtractXML (worker pool of real goroutines, channel, RWMutex-guarded maps, pass loop, osmxml scanner, errgroup) runs under a token-passing scheduler that takes every scheduling decision at every lock acquisition, channel operation, spawn and join from the seed (strategies: round-robin, uniform, sticky, PCT priorities, long worker stalls, starve-one; 1-8 workers), over a simulated file (legal short and (0,nil) reads, an I/O error at byte k of pass p, a failing Seek) and a context cancelled at a chosen scheduler step. Seeded documents (<=41 elements, shared nodes, closed ways, dangling refs with ids coinciding across types, relations of relations with cycles, any element order; one run in 25 as PBF through ExtractPBF) and keep functions (tags, bounds, all). The build step announces every Lock/RLock of encoding/osm that carries no hook (tools/hookfill on a scratch copy), so unannounced lock windows are schedulable too, and inserts plain yield points between all statements, live in one run in six (statement-level interleavings of unsynchronised code). RWMutex writer preference is modelled (a writer that has called Lock blocks later readers), so read-lock order inversions deadlock in simulation as they do in reality. The same build step announces every lock release and every access to a map-typed struct field (and to local maps shared with a function literal); the runtime keeps vector clocks over spawn, join, lock release->acquisition, send->receive and close, and reports two accesses to one map, one of them a write, that nothing orders as a data race (in a real execution: a fatal concurrent map access). Oracle: the sequential least-fixpoint model (key sets and stored values), Check()==nil iff nothing dangles, Filter by tags/all equals the model's filter and is idempotent, termination without deadlock within 2|doc|+2 passes; under an injected fault only an error or the exact model result with a nil error is accepted.",
+   text="The real ExtractXML (worker pool of real goroutines, channel, RWMutex-guarded maps, pass loop, osmxml scanner, errgroup) runs under a token-passing scheduler that takes every scheduling decision at every lock acquisition, channel operation, spawn and join from the seed (strategies: round-robin, uniform, sticky, PCT priorities, long worker stalls, starve-one; 1-8 workers), over a simulated file (legal short and (0,nil) reads, an I/O error at byte k of pass p, a failing Seek) and a context cancelled at a chosen scheduler step. Seeded documents (<=41 elements, shared nodes, closed ways, ways without nodes, dangling refs with ids coinciding across types, relations of relations with cycles, any element order; one run in 25 as PBF through ExtractPBF) and keep functions (tags, bounds, all). The build step announces every Lock/RLock of encoding/osm that carries no hook (tools/hookfill on a scratch copy), so unannounced lock windows are schedulable too, and inserts plain yield points between all statements, live in one run in six (statement-level interleavings of unsynchronised code). RWMutex writer preference is modelled (a writer that has called Lock blocks later readers), so read-lock order inversions deadlock in simulation as they do in reality. The same build step announces every lock release and every access to a map-typed struct field (and to local maps shared with a function literal); the runtime keeps vector clocks over spawn, join, lock release->acquisition, send->receive and close, and reports two accesses to one map, one of them a write, that nothing orders as a data race (in a real execution: a fatal concurrent map access). Oracle: the sequential least-fixpoint model (key sets and stored values), Check()==nil iff nothing dangles, Filter by tags/all equals the model's filter and is idempotent, termination without deadlock within 2|doc|+2 passes; under an injected fault only an error or the exact model result with a nil error is accepted.",
    note="Trusted: the scheduler's yield placement is complete for lock-protected code; unprotected accesses are found by the happens-before tracking for maps only (other shared variables are not followed; the tracker switches itself off, and says so in a probe, when a release was not announced or the package uses sync/atomic, sync.Once/Map/Cond/WaitGroup/Pool, select or extra goroutines); osmxml/encoding-xml are synchronous; for PBF runs osmpbf's own decoder goroutines are unsimulated (deterministic output; such runs get no injected read error or cancellation); effects below statement granularity (torn/reordered memory accesses, the runtime's concurrent-map-write detection) are invisible to a token scheduler; Filter's own map order is not behind a seam (evaluated 4x per run, 64x in replay); CountTags and Geom are not part of the statement and are not checked. Workers left behind by extract's error returns are counted, not reported (C18 is silent about them).",
    technique="deterministic simulation: token-passing scheduler over real goroutines (seeded interleavings, stalls), simulated file/seek faults and cancellation, happens-before (vector-clock) check of shared-map accesses, sequential reference model, tape-minimised replay"),
 }
